@@ -134,8 +134,29 @@ DNA = "TCAG"
 DNA_AMBIG = "RYNWSKMBDHV?-"
 AA = "ACDEFGHIKLMNPQRSTVWY"
 AA_AMBIG = "BZX?-"
+# NCBI genetic codes (translation tables), codon order TTT, TTC, TTA, TTG, TCT, ... (T, C, A, G at each position):
+# the specification's own copy, independent of cogent3's
+GENETIC_CODES = {
+    1: "FFLLSSSSYY**CC*WLLLLPPPPHHQQRRRRIIIMTTTTNNKKSSRRVVVVAAAADDEEGGGG",   # standard
+    2: "FFLLSSSSYY**CCWWLLLLPPPPHHQQRRRRIIMMTTTTNNKKSS**VVVVAAAADDEEGGGG",   # vertebrate mitochondrial
+    4: "FFLLSSSSYY**CCWWLLLLPPPPHHQQRRRRIIIMTTTTNNKKSSRRVVVVAAAADDEEGGGG",   # mold / protozoan mitochondrial
+    5: "FFLLSSSSYY**CCWWLLLLPPPPHHQQRRRRIIMMTTTTNNKKSSSSVVVVAAAADDEEGGGG",   # invertebrate mitochondrial
+    6: "FFLLSSSSYYQQCC*WLLLLPPPPHHQQRRRRIIIMTTTTNNKKSSRRVVVVAAAADDEEGGGG",   # ciliate nuclear
+}
+ALL_CODONS = ["".join(c) for c in itertools.product(DNA, repeat=3)]
+
+
+def translation(gc):
+    return dict(zip(ALL_CODONS, GENETIC_CODES[gc or 1]))
+
+
+def sense_codons(gc=None):
+    t = translation(gc)
+    return [c for c in ALL_CODONS if t[c] != "*"]
+
+
 STOPS = {"TAA", "TAG", "TGA"}
-SENSE = ["".join(c) for c in itertools.product(DNA, repeat=3) if "".join(c) not in STOPS]
+SENSE = sense_codons(1)
 
 # the specification's own reading of degenerate symbols (IUPAC), independent of cogent3's tables
 IUPAC_DNA = {"A": "A", "C": "C", "G": "G", "T": "T", "R": "AG", "Y": "CT", "W": "AT", "S": "CG", "K": "GT", "M": "AC",
@@ -203,6 +224,50 @@ def rand_alignment(rng, names, kind, ncols, words=None, recode=True):
     return rows
 
 
+SCOPE_OPTS = [dict(stem=True), dict(clade=True), dict(stem=True, clade=True), dict(), dict(stem=True, clade=False),
+              dict(stem=False), dict(stem=False, clade=True)]
+
+
+def rand_scope(rng, tree, opts=None):
+    """a per-edge scope: an explicit edge list, or two tip names with one of the stem / clade / outgroup_name
+    combinations (stem alone, clade alone, both, neither, explicit False's)"""
+    named = [x for x in nodes(tree) if x["len"] is not None]
+    inner = [x for x in named if x["ch"]]
+    if not inner or (opts is None and rng.random() < 0.4):
+        return {"edges": sorted(x["name"] for x in rng.sample(named, rng.randint(1, max(1, len(named) // 2))))}
+    m = rng.choice(inner)
+    c1, c2 = rng.sample(m["ch"], 2)
+    sc = {"tip_names": [rng.choice(tips(c1)), rng.choice(tips(c2))]}
+    sc.update(opts if opts is not None else rng.choice(SCOPE_OPTS + [dict(stem=True), dict(stem=True)]))
+    outside = [t for t in tips(tree) if t not in tips(m)]
+    if outside and rng.random() < 0.4:
+        sc["outgroup_name"] = rng.choice(outside)
+    return sc
+
+
+def rand_history(rng, case):
+    """models built earlier in the same interpreter: same class with another genetic code / other options, and
+    unrelated ones"""
+    h = []
+    kind = case_kind(case)
+    base = {k: case.get(k) for k in ("model", "build", "recode_gaps", "gc", "solved", "moltype")}
+    if kind == "codon":
+        others = [g for g in GENETIC_CODES if g != (case.get("gc") or 1)]
+        for g in rng.sample(others, rng.choice([1, 1, 2])):
+            h.append(dict(base, gc=g))
+    else:
+        h.append(dict(base, recode_gaps=not case.get("recode_gaps", True)))
+        if case.get("model") in SOLVABLE:
+            h.append(dict(base, solved=not case.get("solved")))
+    if rng.random() < 0.3:
+        h.append(dict(model=rng.choice(["HKY85", "GY94", "MG94HKY"]), recode_gaps=True))
+    rng.shuffle(h)
+    return h
+
+
+SOLVABLE = ["F81", "HKY85", "TN93"]   # closed-form P(t): get_model(name, rate_matrix_required=False)
+
+
 def rand_bins(rng, choices_n, shapes):
     b = {"n": rng.choice(choices_n), "shape": rng.choice(shapes)}
     if rng.random() < 0.5:
@@ -219,7 +284,7 @@ def rand_mprobs(rng, chars):
     return {c: x / s for c, x in zip(chars, w)}
 
 
-def random_case(rng, tier, models=None, max_tips=6):
+def random_case(rng, tier, models=None, max_tips=6, min_tips=3, scope_opts=None):
     r = rng.random()
     if models is not None:
         model = rng.choice(models)
@@ -236,7 +301,7 @@ def random_case(rng, tier, models=None, max_tips=6):
     cls = model_class(model)
     kind = "codon" if cls == "codon" else "protein" if cls == "protein" else "dna"
     big = cls in ("codon", "protein", "dinuc")
-    ntips = rng.randint(3, 4 if big else max_tips)
+    ntips = rng.randint(min_tips, max(min_tips, 4 if big else max_tips))
     tree = rand_tree(rng, ntips)
     names = tips(tree)
     rng.shuffle(names)
@@ -247,17 +312,28 @@ def random_case(rng, tier, models=None, max_tips=6):
     words = ["".join(w) for w in itertools.product(DNA, repeat=2)] if cls == "dinuc" else None
     if words:
         ncols //= 2
+    gc = None
+    if cls == "codon":
+        gc = rng.choice([None, 1, 2, 2, 4, 5, 6])
+        words = sense_codons(gc)
     case = dict(model=model, moltype="protein" if kind == "protein" else "dna", tree=newick(tree),
                 aln=rand_alignment(rng, names, kind, ncols, words, recode), mprobs=None, pseed=rng.randrange(1 << 30), scoped=None,
-                bins=None, block="random", recode_gaps=recode)
+                bins=None, block="random", recode_gaps=recode, gc=gc)
+    if model in SOLVABLE and rng.random() < 0.45:
+        case["solved"] = True
+    if rng.random() < (0.8 if cls == "codon" else 0.3):
+        case["history"] = rand_history(rng, case)
     if model not in EQUAL_FREQ and cls.startswith("nuc"):
         case["mprobs"] = rand_mprobs(rng, DNA)
     if cls.startswith("nuc") or cls in ("codon", "dinuc"):
-        if rng.random() < 0.3:
-            inner = [x["name"] for x in nodes(tree) if x["len"] is not None]
-            case["scoped"] = {"edges": sorted(rng.sample(inner, rng.randint(1, max(1, len(inner) // 2))))}
+        if scope_opts is not None or rng.random() < 0.4:
+            case["scoped"] = rand_scope(rng, tree, scope_opts)
     if cls == "nuc-rev" and rng.random() < 0.45:
         case["bins"] = rand_bins(rng, [2, 3, 4], [0.3, 0.7, 1.0, 2.5])
+        if rng.random() < 0.3:
+            # autocorrelated rates: patch-HMM over the bins
+            case["bins"]["hmm"] = {"switch": rng.choice([0.1, 0.3, 0.6, 0.9])}
+            case["no_model"] = True
     elif cls == "codon" and rng.random() < 0.15:
         case["bins"] = rand_bins(rng, [2, 3], [0.5, 1.5])
     return case
@@ -288,6 +364,7 @@ def built_case(rng, tier, kind=None, mprob_model=None, subset=None):
     """directly built models: TimeReversible{Nucleotide,Dinucleotide,Codon} x motif-prob model x motifs= subset
     x recode_gaps, with '?' inside words"""
     kind = kind or rng.choice(["codon", "codon", "dinuc", "dinuc", "nuc"])
+    gc = None
     mp = mprob_model or (rng.choice(MPROB_MODELS) if kind != "nuc" else None)
     build = {"kind": kind, "mprob_model": mp, "predicates": "kappa+omega" if kind == "codon" else "kappa"}
     words = None
@@ -299,7 +376,8 @@ def built_case(rng, tier, kind=None, mprob_model=None, subset=None):
             words = dinuc_subset(rng)
             build["motifs"] = words
     else:
-        words = list(SENSE)
+        gc = rng.choice([None, 1, 2, 4, 5, 6])
+        words = sense_codons(gc)
     recode = rng.random() < 0.4
     ntips = rng.randint(3, 4 if kind != "nuc" else 6)
     tree = rand_tree(rng, ntips)
@@ -308,10 +386,11 @@ def built_case(rng, tier, kind=None, mprob_model=None, subset=None):
     ncols = rng.randint(2, 5) if kind != "nuc" else rng.randint(4, 16)
     case = dict(model="BUILT", build=build, moltype="dna", tree=newick(tree),
                 aln=rand_alignment(rng, names, "codon" if kind == "codon" else "dna", ncols, words, recode), mprobs=None,
-                pseed=rng.randrange(1 << 30), scoped=None, bins=None, block="built", recode_gaps=recode)
-    if rng.random() < 0.25:
-        inner = [x["name"] for x in nodes(tree) if x["len"] is not None]
-        case["scoped"] = {"edges": sorted(rng.sample(inner, rng.randint(1, max(1, len(inner) // 2))))}
+                pseed=rng.randrange(1 << 30), scoped=None, bins=None, block="built", recode_gaps=recode, gc=gc)
+    if rng.random() < 0.3:
+        case["scoped"] = rand_scope(rng, tree)
+    if kind == "codon" and rng.random() < 0.8:
+        case["history"] = rand_history(rng, case)
     if rng.random() < 0.2:
         case["bins"] = rand_bins(rng, [2, 3], [0.5, 1.0, 2.0])
     return case
@@ -321,8 +400,10 @@ def allcols_built_case(rng, kind, mprob_model):
     """every possible column exactly once for a directly built word model: two taxa x all sense codons (3721
     columns) or three taxa x a dinucleotide motifs= subset; sum of the column likelihoods must be 1"""
     build = {"kind": kind, "mprob_model": mprob_model, "predicates": "kappa+omega" if kind == "codon" else "kappa"}
+    gc = None
     if kind == "codon":
-        words, ntips = list(SENSE), 2
+        gc = rng.choice([None, 2, 5])
+        words, ntips = sense_codons(gc), 2
     else:
         words, ntips = dinuc_subset(rng), 3
         while len(words) > 9:
@@ -333,7 +414,7 @@ def allcols_built_case(rng, kind, mprob_model):
     rng.shuffle(cols)
     aln = [[f"t{i}", "".join(c[i] for c in cols)] for i in range(ntips)]
     return dict(model="BUILT", build=build, moltype="dna", tree=newick(tree), aln=aln, mprobs=None, pseed=rng.randrange(1 << 30),
-                scoped=None, bins=None, block="allcols", recode_gaps=False, no_model=True)
+                scoped=None, bins=None, block="allcols", recode_gaps=False, no_model=True, gc=gc)
 
 
 def allcols_case(rng, ntips, model):
@@ -472,7 +553,7 @@ def prune_column(tree, P, pi, leafsets, n):
     return sum(a * b for a, b in zip(v, pi))
 
 
-def oracle_columns(case, obs, exact):
+def oracle_columns(case, obs, exact, perbin=None):
     """exact (scaled-integer) likelihood of every alignment position by the first-principles sum;
     returns (list of ints or None where the specification does not apply, method)"""
     K, ps, pi, bp = exact
@@ -508,6 +589,8 @@ def oracle_columns(case, obs, exact):
         tot = vals[0] if len(ps) == 1 else sum(b * v for b, v in zip(bp, vals))
         cache[col] = tot
         out.append(tot)
+        if perbin is not None:
+            perbin[col] = vals
     return out, method
 
 
@@ -564,30 +647,93 @@ def published_rates(bins):
     return [r / m for r in med]
 
 
+CODON_TUPLE = {"Y98", "GY94"}      # q_ij = pi_j(codon) * kappa^[transition] * omega^[non-synonymous], single-nucleotide changes only
+CODON_MONOMER = {"MG94HKY"}        # q_ij = pi(target nucleotide) * kappa^[ts] * omega^[non-syn]   (Muse & Gaut 1994)
+
+
+def published_kind(case, obs):
+    """which published definition applies: 'nuc' | 'codon-tuple' | 'codon-monomer' | None"""
+    b = case.get("build")
+    if b:
+        if b["kind"] == "codon" and b.get("predicates") == "kappa+omega" and obs.get("mprob_model") in ("tuple", "monomer"):
+            return "codon-" + obs["mprob_model"]
+        return None
+    m = case["model"]
+    if m in NUC_REV:
+        return "nuc"
+    if m in CODON_TUPLE:
+        return "codon-tuple"
+    if m in CODON_MONOMER:
+        return "codon-monomer"
+    return None
+
+
+def published_codon_Q(kind, alphabet, pi, nuc_pi, par, gc):
+    """calibrated codon rate matrix from the published definition and the chosen genetic code"""
+    import numpy
+
+    aa = translation(gc)
+    n = len(alphabet)
+    Q = numpy.zeros((n, n))
+    for i, a in enumerate(alphabet):
+        for j, b in enumerate(alphabet):
+            diff = [k for k in range(3) if a[k] != b[k]]
+            if len(diff) != 1:
+                continue
+            k = diff[0]
+            r = nuc_pi[b[k]] if kind == "codon-monomer" else pi[j]
+            if frozenset((a[k], b[k])) in TRANSITIONS:
+                r *= par["kappa"]
+            if aa[a] != aa[b]:
+                r *= par["omega"]
+            Q[i, j] = r
+    for i in range(n):
+        Q[i, i] = -Q[i].sum()
+    scale = -sum(pi[i] * Q[i, i] for i in range(n))
+    return Q / scale
+
+
+def edge_params(case, obs, e, scope):
+    par = {}
+    for p, spec in obs["params"].items():
+        v = spec["value"]
+        if spec.get("scoped") and scope is not None and e in scope:
+            v = spec["scoped"]["value"]
+        par[p] = v
+    return par
+
+
 def published_psubs(case, obs):
-    """P_e = expm(Q_e * t_e [* rate_b]) per bin, from the published definition; None if the model is not covered"""
+    """P_e = expm(Q_e * t_e [* rate_b]) per bin, from the published definition (per-edge parameter values from the
+    scope the oracle derives from the tree); None if the model is not covered"""
     import numpy
     from scipy.linalg import expm
 
-    model = case["model"]
-    if model not in NUC_REV:
+    kind = published_kind(case, obs)
+    if kind is None:
         return None
+    model = case["model"]
     pi = obs["pi"]
     if model in EQUAL_FREQ:
         pi = [0.25] * 4
+    nuc_pi = None
+    if kind == "codon-monomer":
+        nuc_pi = dict(zip(obs["mprob_alphabet"], obs["mprobs_param"]))
+    scope = scope_edges(case)
     rates = published_rates(case["bins"]) if case.get("bins") else [1.0]
+    want_len = newick_lengths(case["tree"])
     out = []
+    cache = {}
     for r in rates:
         d = {}
-        for e, t in obs["lengths"].items():
-            par = {}
-            for p, spec in obs["params"].items():
-                v = spec["value"]
-                if spec.get("scoped") and e in spec["scoped"]["edges"]:
-                    v = spec["scoped"]["value"]
-                par[p] = v
-            Q = published_Q(model, obs["alphabet"], pi, par)
-            d[e] = expm(Q * (t * r))
+        for e in obs["lengths_used"]:
+            t = want_len.get(e, obs["lengths_used"][e])
+            par = edge_params(case, obs, e, scope)
+            k = tuple(sorted(par.items()))
+            if k not in cache:
+                cache[k] = (published_Q(model, obs["alphabet"], pi, par) if kind == "nuc"
+                            else published_codon_Q(kind, obs["alphabet"], pi, nuc_pi, par, case.get("gc")))
+            d[e] = expm(cache[k] * (t * r))
         out.append(d)
     return out
 
@@ -683,6 +829,77 @@ def run_model(prop, cases, obss, exacts):
 
 # ------------------------------------------------------------------ the check
 
+def parse_newick(s):
+    """newick with names -> [name, [children]] (root is called 'root'); the oracle's own reading of the tree"""
+    pos = [0]
+    s = s.strip().rstrip(";")
+
+    def node():
+        ch = []
+        if s[pos[0]] == "(":
+            pos[0] += 1
+            while True:
+                ch.append(node())
+                if s[pos[0]] == ",":
+                    pos[0] += 1
+                    continue
+                assert s[pos[0]] == ")"
+                pos[0] += 1
+                break
+        j = pos[0]
+        while j < len(s) and s[j] not in ",()":
+            j += 1
+        label = s[pos[0]:j]
+        pos[0] = j
+        return [label.split(":")[0], ch]
+
+    t = node()
+    t[0] = t[0] or "root"
+    return t
+
+
+def subtree_names(t):
+    out = []
+    for c in t[1]:
+        out.append(c[0])
+        out += subtree_names(c)
+    return out
+
+
+def scope_edges(case):
+    """the set of edges a scoped parameter applies to, computed from the tree itself.
+    edges=[...]: those edges.  tip_names=[x, y] (+ stem / clade): with M the most recent common ancestor of x and
+    y, `stem` is the edge above M, `clade` all edges below M; stem defaults to False and clade to `not stem`.
+    An outgroup outside the clade of M does not change either set."""
+    sc = case.get("scoped")
+    if not sc:
+        return None
+    if "edges" in sc:
+        return set(sc["edges"])
+    t = parse_newick(case["tree"])
+    x, y = sc["tip_names"]
+
+    def mrca(n):
+        below = set(subtree_names(n)) | {n[0]}
+        if x not in below or y not in below:
+            return None
+        for c in n[1]:
+            m = mrca(c)
+            if m is not None:
+                return m
+        return n
+
+    m = mrca(t)
+    stem = bool(sc.get("stem")) if sc.get("stem") is not None else False
+    clade = bool(sc.get("clade")) if sc.get("clade") is not None else (not stem)
+    out = set()
+    if stem:
+        out.add(m[0])
+    if clade:
+        out |= set(subtree_names(m))
+    return out
+
+
 def newick_lengths(s):
     """edge name -> length, for every named node of a newick string"""
     import re
@@ -698,6 +915,17 @@ def param_checks(case, obs):
         if e in want and (t is None or abs(t - want[e]) > 1e-12 * max(abs(want[e]), 1e-300)):
             return "edge-length", dict(edge=e, expected_by_spec=want[e], observed_impl=t,
                                        broken="the length parameter of an edge is not the branch length of the tree")
+    scope = scope_edges(case)
+    for p, by_edge in (obs.get("param_by_edge") or {}).items():
+        spec = (obs.get("params") or {}).get(p)
+        if not by_edge or not spec:
+            continue
+        for e, v in by_edge.items():
+            exp = spec["scoped"]["value"] if spec.get("scoped") and scope is not None and e in scope else spec["value"]
+            if abs(v - exp) > 1e-12:
+                return "scope", dict(param=p, edge=e, expected_by_spec=exp, observed_impl=v, scope=sorted(scope or []),
+                                     broken="a parameter has the wrong value on an edge: the scope (edges= / tip_names + stem / clade) "
+                                            "was not applied to exactly the edges it names")
     pi = obs.get("pi")
     if pi is not None and (abs(math.fsum(pi) - 1) > 1e-9 or min(pi) < 0):
         return "root-probs-sum", dict(expected_by_spec=1.0, observed_impl=math.fsum(pi),
@@ -711,6 +939,8 @@ def shape_key(case):
         k += "+bins"
     if case.get("scoped"):
         k += "+scoped"
+    if case.get("solved"):
+        k += "+solved"
     return k
 
 
@@ -733,8 +963,18 @@ def check_case(rep, case, obs, model_out, disagreements, stats):
         return
     K = exact[0]
     bits = lik_scale_bits(obs, K)
-    orc, method = oracle_columns(case, obs, exact)
+    hmm = (case.get("bins") or {}).get("hmm")
+    perbin = {} if hmm else None
+    orc, method = oracle_columns(case, obs, exact, perbin)
     stats["method"][method] = stats["method"].get(method, 0) + 1
+    if hmm:
+        bad = param_checks(case, obs)
+        if bad:
+            rep.violation(f"{bad[0]}:solved-model" if case.get("solved") and bad[0] == "edge-length" else f"{bad[0]}:{key}",
+                          dict(case=small, **bad[1]))
+            return
+        check_hmm(rep, case, obs, exact, orc, perbin, key, stats)
+        return
     site = obs["site_liks"]
     # (1) per-position likelihood: implementation vs first-principles sum on the implementation's own matrices
     if len(site) != len(orc):
@@ -764,7 +1004,8 @@ def check_case(rep, case, obs, model_out, disagreements, stats):
     bad = param_checks(case, obs)
     if bad:
         kind, doc = bad
-        rep.violation(f"{kind}:{key}", dict(case=small, **doc))
+        # closed-form ("solved") models get one stable key whatever the other options of the configuration
+        rep.violation(f"{kind}:solved-model" if case.get("solved") and kind == "edge-length" else f"{kind}:{key}", dict(case=small, **doc))
         return
     if case.get("bins"):
         m = sum(b * r for b, r in zip(obs["bprobs"], obs["rates"]))
@@ -794,7 +1035,8 @@ def check_case(rep, case, obs, model_out, disagreements, stats):
                                                          broken="root probabilities are not the motif probabilities that were set"))
                 return
         if worst > P_TOL:
-            rep.violation(f"published-P:{case['model']}" + ("+bins" if case.get("bins") else "") + ("+scoped" if case.get("scoped") else ""),
+            rep.violation(f"published-P:{case['model'] if not case.get('build') else case_class(case)}" + ("+bins" if case.get("bins") else "")
+                          + ("+scoped" if case.get("scoped") else "") + ("+solved" if case.get("solved") else ""),
                           dict(case=small, expected_by_spec="expm(Q t) with Q from the published definition", max_abs_diff=worst,
                                params=obs["params"], broken="P differs from exp(Q t) of the published rate matrix"))
             return
@@ -839,6 +1081,58 @@ def check_case(rep, case, obs, model_out, disagreements, stats):
     stats["model_ok"] += 1
 
 
+def check_hmm(rep, case, obs, exact, orc, perbin, key, stats):
+    """patch-HMM (sites_independent=False): the bins are allocated to two patches (first half / second half); a
+    two-state Markov chain over patches with stationary probabilities pp (the patch sums of bprobs) and
+    T[i][j] = pp[j]*switch (i != j) runs along the alignment; the emission of a patch at a position is the
+    within-patch bprob-weighted mixture of the per-bin column likelihoods.  lnL = log of the forward-algorithm sum
+    over all patch paths.  Per-bin column likelihoods are the exact sum-product values."""
+    small = dict(case)
+    if any(o is None for o in orc):
+        return
+    K = exact[0]
+    bits1 = K * (n_edges(obs["tree"]) + 1)
+    cols = columns_of(case, obs["mlen"])
+    nb = len(obs["psubs"])
+    # per-bin, per-unique-column values of the implementation vs the exact sum
+    idx = obs["root_index"]
+    for p, col in enumerate(cols):
+        for b in range(nb):
+            want = int_ratio_to_float(perbin[col][b], bits1)
+            got = obs["lh_uniq"][b][idx[p]]
+            if not close(want, got, REL_TOL):
+                rep.violation(f"column-lik:{key}", dict(case=small, position=p, bin=b, expected_by_spec=want, observed_impl=got,
+                                                         broken="per-bin column likelihood differs from the sum over assignments"))
+                return
+    bprobs = obs["bprobs"]
+    half = nb // 2
+    alloc = [0] * half + [1] * (nb - half)
+    pp = [sum(x for a, x in zip(alloc, bprobs) if a == k) for k in (0, 1)]
+    s_ = case["bins"]["hmm"]["switch"]
+    T = [[1 - (1 - pp[0]) * s_, pp[1] * s_], [pp[0] * s_, 1 - (1 - pp[1]) * s_]]
+    ll = 0.0
+    al = None
+    for col in cols:
+        e = [0.0, 0.0]
+        for a, w, v in zip(alloc, bprobs, perbin[col]):
+            e[a] += (w / pp[a]) * int_ratio_to_float(v, bits1)
+        if al is None:
+            al = [pp[0] * e[0], pp[1] * e[1]]
+        else:
+            al = [(al[0] * T[0][0] + al[1] * T[1][0]) * e[0], (al[0] * T[0][1] + al[1] * T[1][1]) * e[1]]
+        c = al[0] + al[1]
+        if c <= 0:
+            return
+        ll += math.log(c)
+        al = [al[0] / c, al[1] / c]
+    stats["hmm"] = stats.get("hmm", 0) + 1
+    stats["columns"] += len(cols)
+    if not abs(ll - obs["lnL"]) <= LNL_TOL * max(1.0, abs(ll)):
+        rep.violation("hmm-lnL:" + ("equal-patches" if abs(pp[0] - pp[1]) < 1e-12 else "unequal-patches"),
+                      dict(case=small, expected_by_spec=ll, observed_impl=obs["lnL"], patch_probs=pp,
+                           broken="lnL of the patch-HMM (sites_independent=False) differs from the forward-algorithm sum over patch paths"))
+
+
 def nontrivial(case, obs):
     if not isinstance(obs, dict) or "exc" in obs:
         return False
@@ -848,8 +1142,8 @@ def nontrivial(case, obs):
 
 def build_cases(rng, tier):
     quick = tier == "quick"
-    n_random = 60 if quick else 2000
-    n_built = 20 if quick else 400
+    n_random = 48 if quick else 2000
+    n_built = 18 if quick else 400
     cases = [dict(c) for c in CORPUS]
     for k, m in enumerate(NUC_REV + NUC_NONREV if not quick else ["JC69", "HKY85", "GTR", "GN"]):
         cases.append(allcols_case(rng, 3 + (k % 2), m))
@@ -863,12 +1157,18 @@ def build_cases(rng, tier):
         for mp in MPROB_MODELS:
             cases.append(built_case(rng, tier, kind, mp))
     cases += [built_case(rng, tier) for _ in range(n_built)]
+    # every stem / clade combination of a tip_names scope (with and without an outgroup by chance), on trees that
+    # have internal nodes, over models with and without a published-definition oracle
+    scope_models = [["HKY85"], ["GTR"], ["GN"], ["TN93"], ["GY94"], ["F81"], ["MG94HKY"]]
+    for rnd in range(1 if quick else 12):
+        for k, o in enumerate(SCOPE_OPTS):
+            cases.append(random_case(rng, tier, models=scope_models[(k + rnd) % len(scope_models)], min_tips=5, scope_opts=dict(o)))
     cases += [random_case(rng, tier) for _ in range(n_random)]
     return cases
 
 
 DIMS = dict(alphabet=["nuc", "dinuc", "codon", "protein"], recode_gaps=["recode", "norecode"],
-            mprob_model=["tuple", "monomer", "monomers", "conditional"], bins=["nobins", "equal", "unequal"],
+            mprob_model=["tuple", "monomer", "monomers", "conditional"], bins=["nobins", "equal", "unequal", "hmm-equal", "hmm-unequal"],
             origin=["named", "built"], lengths=["normal", "tiny"])
 
 
@@ -876,7 +1176,7 @@ def dist_cell(case, obs):
     bins = case.get("bins")
     lens = newick_lengths(case["tree"]).values()
     return (case_kind(case), "recode" if obs.get("recode_gaps") else "norecode", obs.get("mprob_model", "?"),
-            "nobins" if not bins else "unequal" if bins.get("bprobs") else "equal",
+            "nobins" if not bins else ("hmm-" if bins.get("hmm") else "") + ("unequal" if bins.get("bprobs") else "equal"),
             "built" if case.get("build") or case["model"].startswith(("DINUC:", "USER")) else "named",
             "tiny" if any(0 < t <= TINY for t in lens) else "normal")
 
